@@ -11,6 +11,8 @@ import Mav.Spec.Lifecycle
 import Mav.Spec.AutoMsgs
 import Mav.Spec.Gen18
 import Mav.Spec.PublishedCrc
+import Mav.Spec.GoTool
+import Mav.Model.GenFile
 /- mavdrv: one operation per line on stdin, model (and spec) answer per line on stdout. -/
 open Mav Drv
 
@@ -369,6 +371,9 @@ def encLow : Prov.Low → String
 
 def encLows (l : List Prov.Low) : String := if l.isEmpty then "-" else "_".intercalate (l.map encLow)
 
+/-- SPEC (C09): "a missing version, a zero system id, or an outgoing key combined with version 1 is refused at initialization" -/
+def specRefused (v : Nat) (s : UInt8) (k : Option Bytes) : Bool := v == 0 || s == 0 || (k.isSome && v == 1)
+
 def step (ds : DState) (line : String) : DState × String :=
   match (line.splitOn " ") with
   | ["x25", h] =>
@@ -434,7 +439,7 @@ def step (ds : DState) (line : String) : DState × String :=
       | some v, some s, some c, some l, some k =>
         let cfg0 : SWCfg := { version := v, sysId := s, compId := c, linkId := l, key := k }
         match swInitialize cfg0 with
-        | .error _ => "init-err"
+        | .error _ => "init-err\t" ++ (if specRefused v s k then "init-err" else "-")
         | .ok cfg =>
         let d := wdialect (ds.get dn)
         let (_, outs) := (items.splitOn ";").foldl (fun (acc : SWState × List String) it =>
@@ -460,7 +465,7 @@ def step (ds : DState) (line : String) : DState × String :=
       | some v, some s, some c, some l, some k =>
         let cfg0 : SWCfg := { version := v, sysId := s, compId := c, linkId := l, key := k }
         match swInitialize cfg0 with
-        | .error _ => "init-err"
+        | .error _ => "init-err\t" ++ (if specRefused v s k then "init-err" else "-")
         | .ok cfg =>
         let d := wdialect (ds.get dn)
         let (_, outs) := (items.splitOn ";").foldl (fun (acc : SWState × List String) it =>
@@ -558,6 +563,21 @@ def step (ds : DState) (line : String) : DState × String :=
       encLows (Prov.tncRun failAt 0 (decCalls calls)) ++ "\t" ++ encLows (Spec.Life.tncSpec failAt (decCalls calls)))
   | ["racecheck", _sc, cnt, _summary] =>
     (ds, let v := if cnt == "0" then "ok" else "violation: the race detector reported " ++ cnt ++ " data race(s)"; v ++ "\t" ++ v)
+  | ["genfiles", msgs, enums, files] =>
+    -- the files the generator wrote for a set of definitions (observed by the harness)
+    (ds,
+      let lst (s : String) : List String := if s == "-" then [] else s.splitOn ","
+      let obs := lst files
+      let expected := "dialect.go" :: ((lst enums).map (fun n => String.ofList (Model.GenFile.goFileName "enum".toList n.toList)) ++
+        (lst msgs).map (fun n => String.ofList (Model.GenFile.goFileName "message".toList n.toList)))
+      let m := if expected.all obs.contains && obs.all expected.contains && expected.length == obs.length then "ok"
+        else "model-differs: expected " ++ ",".intercalate expected
+      -- SPEC: one file per definition (and dialect.go), each a plain source file of the package for the go tool on every platform
+      let bad := obs.filter (fun f => !Spec.GoTool.plainSource f.toList)
+      let sp := if !bad.isEmpty then "violation: not a plain source file for the go tool: " ++ ",".intercalate bad
+        else if obs.length != 1 + (lst enums).length + (lst msgs).length then "violation: not one file per definition"
+        else "ok"
+      m ++ "\t" ++ sp)
   | ["closecheck", _sc, obs, _note] =>
     (ds, match Spec.Close.parseObs obs with
       | some o => let v := if Spec.Close.closeLegal o then "ok" else "violation: " ++ obs; v ++ "\t" ++ v
